@@ -435,61 +435,75 @@ class HttpProxyPlugin(HttpProtocolHandlerPlugin):
             if self.request.is_complete and (
                 not self.request.is_https_tunnel or self._tls_intercept_enabled
             ):
-                if self.pipeline_request is not None and \
-                        self.pipeline_request.is_complete and \
-                        self.pipeline_request.is_connection_upgrade:
-                    # Previous pipelined request was a WebSocket
-                    # upgrade request. Incoming client data now
-                    # must be treated as WebSocket protocol packets.
-                    self.upstream.queue(raw)
-                    return
-                if self.pipeline_request is None:
-                    # For pipeline requests, we never
-                    # want to use --enable-proxy-protocol flag
-                    # as proxy protocol header will not be present
-                    #
-                    # TODO: HTTP parser must be smart about detecting
-                    # HA proxy protocol or we must always explicitly pass
-                    # the flag when we are expecting HA proxy protocol
-                    # request line before HTTP request lines.
-                    self.pipeline_request = HttpParser(
-                        httpParserTypes.REQUEST_PARSER,
-                    )
-                self.pipeline_request.parse(raw)
-                if self.pipeline_request.is_complete:
-                    for plugin in self.plugins.values():
-                        assert self.pipeline_request is not None
-                        r = plugin.handle_client_request(self.pipeline_request)
-                        if r is None:
-                            # Request dropped by plugin, start afresh
-                            # for the next request on this connection.
-                            self.pipeline_request = None
-                            return
-                        self.pipeline_request = r
-                    assert self.pipeline_request is not None
-                    # Like for the first request of the connection, proxy
-                    # credentials and operator disabled headers are not for upstream.
-                    self.pipeline_request.del_headers(
-                        [
-                            httpHeaders.PROXY_AUTHORIZATION,
-                            httpHeaders.PROXY_CONNECTION,
-                        ],
-                    )
-                    # TODO(abhinavsingh): Remove memoryview wrapping here after
-                    # parser is fully memoryview compliant
-                    self.upstream.queue(
-                        memoryview(
-                            self.pipeline_request.build(
-                                disable_headers=self.flags.disable_headers,
-                            ),
-                        ),
-                    )
-                    if not self.pipeline_request.is_connection_upgrade:
-                        self.pipeline_request = None
+                # A segment may carry more than one (pipelined) request
+                remaining: Optional[memoryview] = raw
+                while remaining is not None and len(remaining) > 0:
+                    remaining = self._handle_pipeline_data(remaining)
             # For scenarios where we cannot peek into the data,
             # simply queue for upstream server.
             else:
                 self.upstream.queue(raw)
+
+    def _handle_pipeline_data(self, raw: memoryview) -> Optional[memoryview]:
+        """Handles client data received after the first request when we can peek
+        into it.  Returns bytes left over after a complete request, if any."""
+        assert self.upstream
+        if self.pipeline_request is not None and \
+                self.pipeline_request.is_complete and \
+                self.pipeline_request.is_connection_upgrade:
+            # Previous pipelined request was a WebSocket
+            # upgrade request. Incoming client data now
+            # must be treated as WebSocket protocol packets.
+            self.upstream.queue(raw)
+            return None
+        if self.pipeline_request is None:
+            # For pipeline requests, we never
+            # want to use --enable-proxy-protocol flag
+            # as proxy protocol header will not be present
+            #
+            # TODO: HTTP parser must be smart about detecting
+            # HA proxy protocol or we must always explicitly pass
+            # the flag when we are expecting HA proxy protocol
+            # request line before HTTP request lines.
+            self.pipeline_request = HttpParser(
+                httpParserTypes.REQUEST_PARSER,
+            )
+        self.pipeline_request.parse(raw)
+        if self.pipeline_request.is_complete:
+            # Bytes following a complete request belong to the next one
+            remaining = self.pipeline_request.buffer
+            self.pipeline_request.buffer = None
+            for plugin in self.plugins.values():
+                assert self.pipeline_request is not None
+                r = plugin.handle_client_request(self.pipeline_request)
+                if r is None:
+                    # Request dropped by plugin, start afresh
+                    # for the next request on this connection.
+                    self.pipeline_request = None
+                    return remaining
+                self.pipeline_request = r
+            assert self.pipeline_request is not None
+            # Like for the first request of the connection, proxy
+            # credentials and operator disabled headers are not for upstream.
+            self.pipeline_request.del_headers(
+                [
+                    httpHeaders.PROXY_AUTHORIZATION,
+                    httpHeaders.PROXY_CONNECTION,
+                ],
+            )
+            # TODO(abhinavsingh): Remove memoryview wrapping here after
+            # parser is fully memoryview compliant
+            self.upstream.queue(
+                memoryview(
+                    self.pipeline_request.build(
+                        disable_headers=self.flags.disable_headers,
+                    ),
+                ),
+            )
+            if not self.pipeline_request.is_connection_upgrade:
+                self.pipeline_request = None
+            return remaining
+        return None
 
     @property
     def _tls_intercept_enabled(self) -> bool:
